@@ -65,9 +65,19 @@ type c19World struct {
 
 func init() { stdlog.SetOutput(io.Discard) }
 
+// c19SessionCaching selects the sidecar configuration of the worlds built next (session caching on: capacity 1, so
+// that the two partitions of the set-up evict each other).
+var c19SessionCaching bool
+
 func newC19App() *server.AppEncryption {
-	return server.NewAppEncryption(&server.Options{ServiceName: "svc", ProductID: "prod", ExpireAfter: time.Hour, CheckInterval: time.Hour,
-		Metastore: "memory", KMS: "static"})
+	o := &server.Options{ServiceName: "svc", ProductID: "prod", ExpireAfter: time.Hour, CheckInterval: time.Hour,
+		Metastore: "memory", KMS: "static"}
+	if c19SessionCaching {
+		o.EnableSessionCaching = true
+		o.SessionCacheMaxSize = 1
+		o.SessionCacheDuration = time.Hour
+	}
+	return server.NewAppEncryption(o)
 }
 
 func reqGet(id string) *pb.SessionRequest {
@@ -182,7 +192,7 @@ var c19RecordShapes = map[string]func(r *pb.DataRowRecord){
 }
 
 // c19Shapes: every malformed message shape in every protocol state, followed by ordinary requests (the stream must go on).
-func c19Shapes(r *Report, w *c19World, sigSeen map[string]bool) {
+func c19Shapes(r *Report, w *c19World, sigSeen map[string]bool, label string) {
 	t0 := time.Now()
 	var shapes []string
 	for k := range c19RecordShapes {
@@ -216,7 +226,7 @@ func c19Shapes(r *Report, w *c19World, sigSeen map[string]bool) {
 						sig := v.Sig
 						if !sigSeen[sig] {
 							sigSeen[sig] = true
-							r.Viols = append(r.Viols, Viol{Property: "C19", Harness: "C19/streams", Sig: sig, Msg: v.Msg, Ops: append([]string{}, seq...)})
+							r.Viols = append(r.Viols, Viol{Property: "C19", Harness: label, Sig: sig, Msg: v.Msg, Ops: append([]string{}, seq...)})
 						}
 					}
 					if pan != "" {
@@ -228,7 +238,7 @@ func c19Shapes(r *Report, w *c19World, sigSeen map[string]bool) {
 			}
 		}
 	}
-	r.Runs = append(r.Runs, RunInfo{Name: "C19/message-shapes", Executions: n, States: len(shapes), Transitions: int64(n), Exhaustive: true, Violations: nviol,
+	r.Runs = append(r.Runs, RunInfo{Name: label + "/message-shapes", Executions: n, States: len(shapes), Transitions: int64(n), Exhaustive: true, Violations: nviol,
 		Bound: fmt.Sprintf("%d malformed message shapes x 5 protocol-state prefixes x 4 continuations (+ all ordered pairs of shapes after the first request)", len(shapes)), WallS: time.Since(t0).Seconds()})
 	r.Evaluations += n
 	r.TracesValidated += n
@@ -352,10 +362,32 @@ func CheckC19(r *Report) {
 	if r.Thorough() {
 		maxLen = 6
 	}
+	c19SessionCaching = false
+	w, sigSeen := c19Enumerate(r, "C19/streams", maxLen)
+	if w == nil {
+		return
+	}
+	// the same sequences (one request shorter) on a sidecar with session caching enabled (capacity 1)
+	c19SessionCaching = true
+	if w2, _ := c19Enumerate(r, "C19/streams-session-cache", maxLen-1); w2 != nil {
+		c19Shapes(r, w2, map[string]bool{}, "C19/streams-session-cache")
+	}
+	c19SessionCaching = false
+	r.Rule += " || the same sequences up to one request shorter, and the message shapes, on a sidecar with session caching enabled (capacity 1)"
+	c19Shapes(r, w, sigSeen, "C19/streams")
+	r.Rule += " || PLUS message shapes: every structurally malformed decrypt record (each optional sub-message / field absent, truncated, empty or oversized) and typed-nil request bodies, in every protocol state, followed by ordinary requests on the same stream"
+	if r.TimeLeft() {
+		c19Sched(r)
+		r.Rule += " || PLUS two concurrent streams (each: get-session, encrypt; then get-session, decrypt, encrypt) on one AppEncryption over the instrumented SDK, every interleaving up to the preemption bound, with and without session caching"
+	}
+}
+
+// c19Enumerate runs every request sequence up to maxLen on the current sidecar configuration.
+func c19Enumerate(r *Report, label string, maxLen int) (*c19World, map[string]bool) {
 	w, err := newC19World()
 	if err != nil {
 		r.MachineryError = err.Error()
-		return
+		return nil, nil
 	}
 	sigSeen := map[string]bool{}
 	states := map[string]bool{}
@@ -394,7 +426,7 @@ func CheckC19(r *Report) {
 				nviol++
 				if !sigSeen[v.Sig] {
 					sigSeen[v.Sig] = true
-					r.Viols = append(r.Viols, Viol{Property: "C19", Harness: "C19/streams", Sig: v.Sig, Msg: v.Msg, Ops: append([]string{}, seq...)})
+					r.Viols = append(r.Viols, Viol{Property: "C19", Harness: label, Sig: v.Sig, Msg: v.Msg, Ops: append([]string{}, seq...)})
 				}
 			}
 			if pan != "" {
@@ -439,7 +471,7 @@ func CheckC19(r *Report) {
 		r.Exhaustive = false
 		r.Caps = append(r.Caps, fmt.Sprintf("time budget: sequences up to length %d completed", completedLen))
 	}
-	r.Runs = append(r.Runs, RunInfo{Name: "C19/streams", Executions: nstreams, States: len(states), Transitions: int64(nstreams), Bound: fmt.Sprintf("all sequences of length <= %d (alphabet %d)", completedLen, len(c19Alphabet)),
+	r.Runs = append(r.Runs, RunInfo{Name: label, Executions: nstreams, States: len(states), Transitions: int64(nstreams), Bound: fmt.Sprintf("all sequences of length <= %d (alphabet %d)", completedLen, len(c19Alphabet)),
 		Exhaustive: full, Violations: nviol, WallS: time.Since(t0).Seconds()})
 	r.Evaluations += nstreams
 	r.TracesValidated += nstreams
@@ -450,15 +482,11 @@ func CheckC19(r *Report) {
 	if len(r.Samples) == 0 {
 		r.Samples = append(r.Samples, map[string]interface{}{"requests": []string{"get(p1)", "enc", "dec(own)"}})
 	}
-	c19Shapes(r, w, sigSeen)
-	r.Rule += " || PLUS message shapes: every structurally malformed decrypt record (each optional sub-message / field absent, truncated, empty or oversized) and typed-nil request bodies, in every protocol state, followed by ordinary requests on the same stream"
-	if r.TimeLeft() {
-		c19Sched(r)
-		r.Rule += " || PLUS two concurrent streams (each: get-session, encrypt; then get-session, decrypt, encrypt) on one AppEncryption over the instrumented SDK, every interleaving up to the preemption bound, with and without session caching"
-	}
+	return w, sigSeen
 }
 
 func c19Replay(v *Viol) []string {
+	c19SessionCaching = v.Harness == "C19/streams-session-cache"
 	w, err := newC19World()
 	if err != nil {
 		return []string{err.Error()}
